@@ -339,6 +339,8 @@ def run(ctx):
         for clause, msg in check_invalid(case):
             part.violation(f"{clause}:{case!r}", msg, {"kind": "invalid", "case": list(case)})
         part.count("invalid_cases")
+    from .. import callforms              # pylint: disable=import-outside-toplevel
+    part.merge(callforms.explore("C11"))
     cnt = part.counters
     total = cnt.get("valid_cases", 0) + cnt.get("invalid_cases", 0)
     coverage = {
@@ -369,6 +371,9 @@ def run(ctx):
 
 
 def replay(case):
+    if case.get("kind") == "callform":
+        from .. import callforms          # pylint: disable=import-outside-toplevel
+        return callforms.replay(case)
     if case["kind"] == "spelled":
         return [m for _c, m in check_spelled(tuple(tuple(t) for t in case["tokens"]), (100, 60),
                                              case["par"])]
